@@ -636,6 +636,9 @@ def gen_fn_case(r):
 
 ELEM_TYPES = [INT, STR, TUP(INT, STR), TUP(INT, INT), FLOAT, BOOL, BOOL, TUP(BOOL, INT), LIST(INT)]
 KEY_TYPES = [INT, STR, TUP(INT, INT), TUP(STR, STR), TUP(INT, STR)]
+# nested tuple keys, up to depth 3
+NESTED_KEY_TYPES = [TUP(INT, TUP(INT, INT)), TUP(TUP(INT, INT), INT), TUP(STR, TUP(INT, STR)), TUP(TUP(INT, INT), TUP(INT, INT)),
+                    TUP(INT, TUP(INT, TUP(INT, INT))), TUP(TUP(TUP(INT, STR), INT), INT), TUP(INT, FLOAT, TUP(STR,))]
 
 
 def t_name(t):
@@ -1139,6 +1142,14 @@ def gen_keyed_history(r, nops, kind=None, kt=None, strs=STRS_SAFE, preamble_only
     kt = kt or r.choice(KEY_TYPES)
     vt = r.choice([INT, STR, TUP(INT, INT), BOOL, BOOL, FLOAT])
     keys = [gen_value(r, kt, strs, small=True) for _ in range(7)]
+    if kt[0] == "tuple":
+        # keys that share all components but one (also the trailing / nested ones): half of the pool are variants
+        for i in range(3, 7):
+            for _ in range(4):
+                v = mutate(r, keys[r.randrange(3)], kt, strs)
+                if v not in keys[:i]:
+                    keys[i] = v
+                    break
     if not allow_collisions:
         keys = distinct_printed(keys, kt)
     gk = lambda: r.choice(keys)
